@@ -63,6 +63,9 @@ var keyReaders = map[string]bool{
 	"tx.Sign": true, "tx.SignWitness": true, "btc.PublicFromPrivate": true, "new": true,
 }
 
+// methods (of *btc.Tx) that take the key bytes as their last argument and only read them
+var readerMethodNames = map[string]bool{"Sign": true, "SignWitness": true}
+
 // methods of a record (*btc.PrivateAddr, embedded *btc.BtcAddr) that only read it
 var recReaderMethods = map[string]bool{"String": true, "IsCompressed": true, "OutScript": true}
 
@@ -613,7 +616,11 @@ func genStoreFacts() {
 					sf.wrKey = true
 					note(what + " " + rs)
 				}
-				if !isExt && !keyReaders[k] && k != "append" && k != "copy" {
+				reader := keyReaders[k]
+				if dot := strings.LastIndex(k, "."); dot > 0 && !isPkg && readerMethodNames[k[dot+1:]] {
+					reader = true // (*btc.Tx).Sign / SignWitness whatever the transaction variable is called
+				}
+				if !isExt && !reader && k != "append" && k != "copy" {
 					for i, a := range s.Args {
 						if isPkg && !callee.variadic {
 							if _, t1 := callee.recP[i]; t1 {
